@@ -1,5 +1,6 @@
 import CobaVerif.Driver.JsonUtil
 import CobaVerif.Model.C15
+import CobaVerif.Generated.C15PredFormat
 open Lean Coba.J
 
 namespace Coba.C15.Driver
@@ -26,6 +27,11 @@ partial def parseVal (j : Json) : Except String PyVal := do
   | .error _ =>
   match j.getObjVal? "i" with
   | .ok i => pure (.int (← int i))
+  | .error _ =>
+  match j.getObjVal? "nan" with
+  | .ok r => (match ← arr r with
+    | [r] => do pure (mkNan (← parseRef r))      -- a `float('nan')` object: the model's token for it
+    | _ => throw "bad nan")
   | .error _ =>
   match j.getObjVal? "f" with
   | .ok f => (match ← arr f with
@@ -63,7 +69,7 @@ partial def valToJson : PyVal → Json
   | .none => obj [("n", ofNat 0)]
   | .bool b => obj [("b", Json.bool b)]
   | .int i => obj [("i", ofInt i)]
-  | .flt _ q => obj [("f", ratToJson q)]
+  | .flt _ q => if isNanVal q then obj [("nan", ofNat 0)] else obj [("f", ratToJson q)]
   | .str _ s => obj [("s", Json.str s)]
   | .tuple _ xs => obj [("t", ofList valToJson xs)]
   | .list _ xs => obj [("l", ofList valToJson xs)]
@@ -256,13 +262,40 @@ def splitCheck (fx : Fixes) (L : Learner) (st : State) (calls : List Arg) : Json
     | [] => Json.null
   obj [("split_ok", Json.bool (r == s)), ("core_ok", Json.bool (r == c)), ("n", ofNat calls.length), ("decided", dec)]
 
+/-- (C) for `nan_encoding_faithful`: on every pair of objects offered in the calls, Python's container comparison with real
+nans (`richEq` on what the tokens stand for) = the model's `pyIs || pyEq` on the tokens -/
+def nanCheck (calls : List Arg) : Json :=
+  let objs := calls.flatMap (fun a => match a with | .single _ as => as | .batch _ rows => rows.flatten)
+  let nans := objs.filter PyVal.isNan
+  let ok := objs.all (fun a => objs.all (fun b => richEq (NVal.ofPy a) (NVal.ofPy b) == itemEq a b))
+  let side := objs.all (fun a => objs.all (fun b => match NVal.ofPy a, NVal.ofPy b with
+    | .nan r, .val v => v.nanFree && objDistinct r v
+    | _, _ => true))
+  obj [("ok", Json.bool ok), ("side", Json.bool side), ("nans", ofNat nans.length)]
+
+def pfmtToJson (r : Except Err PFmt) : Json :=
+  match r with
+  | .ok f => obj [("ok", Json.str ((match f.kind with | .AX => "AX" | .AP => "AP" | .PM => "PM") ++ (if f.star then "*" else "")))]
+  | .error e => obj [("err", Json.str (errName e))]
+
+/-- `pred_format(std_pred, actions)` twice: the model's `predFormat fx`, and the decision tree read from the source run by `pfRun` -/
+def pfCheck (fx : Fixes) (j : Json) : Except String Json := do
+  let sp ← parseVal (← field j "sp")
+  let acts : Option (List PyVal) ← (match j.getObjVal? "actions" with
+    | .ok (Json.arr xs) => do pure (some (← xs.toList.mapM parseVal))
+    | _ => pure Option.none)
+  pure (obj [("model", pfmtToJson (predFormat fx sp acts)), ("table", pfmtToJson (pfRun Coba.Generated.C15.predFormatTree sp acts))])
+
 def handle (req : Json) : Except String Json := do
   let fxj ← field req "fx"
   let fx : Fixes := ⟨← bool (← field fxj "short"), ← bool (← field fxj "batch"), ← bool (← field fxj "col"), ← bool (← field fxj "rowdict")⟩
   let seed ← int (← field req "seed")
   let calls ← (← arr (← field req "calls")).mapM parseArg
   let st := initState seed
-  let mut out : List (String × Json) := []
+  let mut out : List (String × Json) := [("nan_check", nanCheck calls)]
+  match req.getObjVal? "pf" with
+  | .ok pj => out := out ++ [("pf", Json.arr (← (← arr pj).mapM (pfCheck fx)).toArray)]
+  | .error _ => pure ()
   -- the learner as recorded from the real run
   match req.getObjVal? "recorded" with
   | .ok rj =>
